@@ -99,7 +99,7 @@ macro_rules! room_event {
                     && u64::from(x.origin_server_ts().0) == ev["origin_server_ts"].as_u64().unwrap_or(0);
                 let _ = $state;
                 let _ = $full;
-                acc_ok = acc_ok && x.event_type().to_string() == ev["type"].as_str().unwrap_or("");
+                // the type accessor is judged through `type_out` (an alias spelling may come back as the stable name)
                 Obs { ok: true, known: dbg_known(&d), redacted: d.contains("(Redacted("), type_out: x.event_type().to_string(), acc_ok,
                       content: None, err: String::new() }
             }
@@ -352,13 +352,13 @@ pub fn run(_args: &[String]) {
                                 };
                                 let raw_field_ok = raw_field_ok && raw_escaped_ok;
                                 let _ = &o.content;
-                                json!({"i": i, "sample": s["sample"], "kind": kind, "type": ty, "wildcard": wildcard, "format": format, "variant": vname, "redacted_in": red, "rv": rv,
+                                json!({"i": i, "sample": s["sample"], "kind": kind, "type": ty, "alias": s.get("alias").and_then(|a| a.as_bool()).unwrap_or(false), "wildcard": wildcard, "format": format, "variant": vname, "redacted_in": red, "rv": rv,
                                        "extras": extras, "target": target, "ok": o.ok, "known": o.known, "redacted_out": o.redacted, "type_out": o.type_out,
                                        "acc_ok": o.acc_ok, "hascontent": hascontent, "fix_ok": fix, "nodup": nodup, "subsumes": sub, "order_indep": order && order_ev,
                                        "extras_ok": o.ok, "raw_identical": raw_identical, "raw_field_ok": raw_field_ok, "panic": false,
                                        "err": o.err, "content_text": ctext, "tag": s.get("tag").cloned().unwrap_or(json!("")), "event": text})
                             });
-                            out.put(&rec.unwrap_or_else(|p| json!({"i": i, "kind": kind, "type": ty, "wildcard": wildcard, "format": format, "variant": vname,
+                            out.put(&rec.unwrap_or_else(|p| json!({"i": i, "kind": kind, "type": ty, "alias": false, "wildcard": wildcard, "format": format, "variant": vname,
                                 "redacted_in": red, "rv": rv, "extras": extras, "target": target, "ok": false, "known": false, "redacted_out": false, "type_out": "",
                                 "acc_ok": false, "hascontent": false, "fix_ok": false, "nodup": false, "subsumes": false, "order_indep": false, "extras_ok": false,
                                 "raw_identical": false, "raw_field_ok": false, "panic": true, "err": p, "content_text": "", "tag": "", "event": text})));
